@@ -81,7 +81,8 @@ Verdict(c) ==
         IN
         IF cr.n = 0 THEN "skip:reaction-without-changed-bond"
         ELSE AllFails(RouteClauses(cr, fr, c.routes, 1) \o
-                      << <<"its-gml-its-round-trip-changes-the-rule", SameRule(c.back, cr, FALSE)>> >>)
+                      << <<"its-gml-its-round-trip-changes-the-rule", SameRule(c.back, cr, FALSE)>>,
+                         <<"its-gml-its-round-trip-changes-a-rule-with-a-wildcard-atom", SameRule(c.back_w, c.want_w, FALSE)>> >>)
 
 VARIABLE i
 Init == i = 0
